@@ -294,63 +294,71 @@ class _Prog:
         raise ValueError(f"op {e.decl().name()}")
 
     def run(self, box):
-        """box: list of (lo, hi) floats for self.names.  Returns list of intervals per node or None
-        if a division by an interval containing zero occurs."""
+        """box: list of (lo, hi) floats for self.names.  Returns the list of intervals per node; a node
+        whose value cannot be enclosed (division by an interval containing zero, or an operand that could
+        not be enclosed) is None."""
         val = [None] * len(self.code)
         for i, (op, p) in enumerate(self.code):
-            if op == "c":
-                val[i] = p
-            elif op == "v":
-                val[i] = box[p]
-            elif op == "+":
-                lo = hi = 0.0
-                for j in p:
-                    lo += val[j][0]
-                    hi += val[j][1]
-                val[i] = (_dn(lo) if len(p) > 1 else lo, _up(hi) if len(p) > 1 else hi)
-            elif op == "-":
-                lo, hi = val[p[0]]
-                for j in p[1:]:
-                    lo -= val[j][1]
-                    hi -= val[j][0]
-                val[i] = (_dn(lo), _up(hi))
-            elif op == "neg":
-                val[i] = (-val[p][1], -val[p][0])
-            elif op == "*":
-                lo, hi = 1.0, 1.0
-                for j, pw in p:
-                    a, b = val[j]
-                    if pw != 1:
-                        if pw % 2 == 0:
-                            m = 0.0 if a <= 0.0 <= b else min(abs(a), abs(b)) ** pw
-                            a, b = _dn(m) if m > 0 else 0.0, _up(max(abs(a), abs(b)) ** pw)
-                        else:
-                            a, b = _dn(a ** pw), _up(b ** pw)
-                    c1, c2, c3, c4 = lo * a, lo * b, hi * a, hi * b
-                    lo, hi = _dn(min(c1, c2, c3, c4)), _up(max(c1, c2, c3, c4))
-                val[i] = (lo, hi)
-            elif op == "/":
-                a, b = val[p[0]], val[p[1]]
-                if b[0] <= 0.0 <= b[1]:
-                    return None
-                c1, c2, c3, c4 = a[0] / b[0], a[0] / b[1], a[1] / b[0], a[1] / b[1]
-                val[i] = (_dn(min(c1, c2, c3, c4)), _up(max(c1, c2, c3, c4)))
-            elif op == "sqrt":
-                a, b = val[p]
-                a, b = max(a, 0.0), max(b, 0.0)
-                val[i] = (_dn(math.sqrt(a)) if a > 0 else 0.0, _up(math.sqrt(b)))
-            elif op == "ite":
-                d, strict, ia, ib = p
-                lo, hi = val[d]
-                if lo > 0.0 or (not strict and lo >= 0.0):
-                    val[i] = val[ia]
-                elif hi < 0.0 or (strict and hi <= 0.0):
-                    val[i] = val[ib]
-                else:
-                    val[i] = (min(val[ia][0], val[ib][0]), max(val[ia][1], val[ib][1]))
-            elif op == "hull":
-                val[i] = (min(val[p[0]][0], val[p[1]][0]), max(val[p[0]][1], val[p[1]][1]))
+            try:
+                val[i] = self._step(op, p, val, box)
+            except TypeError:           # an operand is None
+                val[i] = None
         return val
+
+    @staticmethod
+    def _step(op, p, val, box):
+        if op == "c":
+            return p
+        if op == "v":
+            return box[p]
+        if op == "+":
+            lo = hi = 0.0
+            for j in p:
+                lo += val[j][0]
+                hi += val[j][1]
+            return (_dn(lo) if len(p) > 1 else lo, _up(hi) if len(p) > 1 else hi)
+        if op == "-":
+            lo, hi = val[p[0]]
+            for j in p[1:]:
+                lo -= val[j][1]
+                hi -= val[j][0]
+            return (_dn(lo), _up(hi))
+        if op == "neg":
+            return (-val[p][1], -val[p][0])
+        if op == "*":
+            lo, hi = 1.0, 1.0
+            for j, pw in p:
+                a, b = val[j]
+                if pw != 1:
+                    if pw % 2 == 0:
+                        m = 0.0 if a <= 0.0 <= b else min(abs(a), abs(b)) ** pw
+                        a, b = _dn(m) if m > 0 else 0.0, _up(max(abs(a), abs(b)) ** pw)
+                    else:
+                        a, b = _dn(a ** pw), _up(b ** pw)
+                c1, c2, c3, c4 = lo * a, lo * b, hi * a, hi * b
+                lo, hi = _dn(min(c1, c2, c3, c4)), _up(max(c1, c2, c3, c4))
+            return (lo, hi)
+        if op == "/":
+            a, b = val[p[0]], val[p[1]]
+            if b[0] <= 0.0 <= b[1]:
+                return None
+            c1, c2, c3, c4 = a[0] / b[0], a[0] / b[1], a[1] / b[0], a[1] / b[1]
+            return (_dn(min(c1, c2, c3, c4)), _up(max(c1, c2, c3, c4)))
+        if op == "sqrt":
+            a, b = val[p]
+            a, b = max(a, 0.0), max(b, 0.0)
+            return (_dn(math.sqrt(a)) if a > 0 else 0.0, _up(math.sqrt(b)))
+        if op == "ite":
+            d, strict, ia, ib = p
+            lo, hi = val[d]
+            if lo > 0.0 or (not strict and lo >= 0.0):
+                return val[ia]
+            if hi < 0.0 or (strict and hi <= 0.0):
+                return val[ib]
+            return (min(val[ia][0], val[ib][0]), max(val[ia][1], val[ib][1]))
+        if op == "hull":
+            return (min(val[p[0]][0], val[p[1]][0]), max(val[p[0]][1], val[p[1]][1]))
+        raise ValueError(op)
 
 
 def _atoms(c):
@@ -411,6 +419,10 @@ def prove_bb(claim, box, sqrt_args=None, max_boxes=20000, diff=None):
         try:
             f = z3.simplify(rhs - lhs, som=True)
             root = prog.compile(f)      # want root > 0 (>= 0)
+            try:
+                root_raw = prog.compile(z3.simplify(rhs - lhs))   # un-expanded form: other denominators
+            except (ValueError, NotImplementedError, z3.Z3Exception):
+                root_raw = None
             used = sorted({p for op, p in prog.code if op == "v"})
             grads = None
             if diff is not None:
@@ -430,6 +442,12 @@ def prove_bb(claim, box, sqrt_args=None, max_boxes=20000, diff=None):
                 BB_DEBUG.append(("max_boxes", b))
                 return None
             val = prog.run(b)
+            if val[root] is None and root_raw is not None and val[root_raw] is not None:
+                val[root] = val[root_raw]
+            elif val[root] is not None and root_raw is not None and val[root_raw] is not None:
+                val[root] = (max(val[root][0], val[root_raw][0]), min(val[root][1], val[root_raw][1]))
+            if val[root] is None:
+                val = None
             if val is not None:
                 lo, hi = val[root]
                 if lo > 0.0 or (not strict and lo >= 0.0):
@@ -441,7 +459,9 @@ def prove_bb(claim, box, sqrt_args=None, max_boxes=20000, diff=None):
                 if grads is not None:
                     mid = [(0.5 * (x + y),) * 2 for x, y in b]
                     vc = prog.run(mid)
-                    if vc is not None:
+                    if vc[root] is None and root_raw is not None:
+                        vc[root] = vc[root_raw]
+                    if vc[root] is not None and all(val[gi] is not None for _, gi in grads):
                         low = vc[root][0]
                         impact = {}
                         for j, gi in grads:
